@@ -549,7 +549,7 @@ class List(Sequence):
                 continue
             try:
                 index = int(m.group(1))
-            except TypeError:
+            except (TypeError, ValueError):
                 # Ignore keys with outrageously large indexes- they
                 # aren't valid data for us.
                 pass
